@@ -333,6 +333,10 @@ def _fill_args(W, s):
     q = [[1, 0], [0, 1], [1, 1], [-1, 1], [2, 0], [0, 2], [2, 1]] if d == 2 else \
         [[1, 0, 0], [0, 1, 0], [0, 0, 1], [1, 1, 0], [-1, 0, 1], [1, 1, 1], [2, 0, 0], [0, 1, -1]]
     W.flavours("qvec", s, np.array(q, dtype=np.int64), "pv")
+    # the same table with a floating dtype (np.loadtxt / np.round give such tables): `astype(float, copy=False)` and
+    # `np.asarray(x, float)` alias it, so an in-place scaling of the converted table would modify the caller's argument.
+    # It sits in the third flavour slot (fl(..., v) with v % 3 = 2) of the wave-vector argument.
+    W.add("qvec_r", s, np.array(q, dtype=np.float64))
     W.flavours("ppp", s, np.ones(d, dtype=np.int64), "pr")
     sig = 0.5 * (np.linspace(1.0, 0.7, K)[:, None] + np.linspace(1.0, 0.7, K)[None, :]) * W.scale
     W.flavours("sigmas", s, sig, "pr")
@@ -644,7 +648,7 @@ def i_vecfft(Z, s, v):
     from PyMatterSim.static.vector import vector_fft_corr
     W = Z.W
     out = Z.out("")
-    r = vector_fft_corr(W.S[s], W.fl("qvec", s, v), W.a("vecs_r" if v else "vecs", s), dt=0.002, outputfile=out)
+    r = vector_fft_corr(W.S[s], W.fl("qvec", s, v), W.a("vecs_r" if v == 1 else "vecs", s), dt=0.002, outputfile=out)
     ok = all(npy_holds(f"{out}.{h}.npy", r[h].values) for h in ("FFT", "T_FFT", "L_FFT")) and os.path.exists(out + ".spectra.csv")
     return r, ok
 
@@ -888,6 +892,8 @@ def c_sq(Z, s, v):
     W = Z.W
     if v == 0:
         o, out = sq(W.S[s], qrange=W.qrange), None
+    elif v == 2:                      # float-valued wave-vector table, no output file
+        o, out = sq(W.S[s], qvector=W.a("qvec_r", s)), None
     else:
         out = Z.out(".csv")
         o = sq(W.S[s], qvector=W.a("qvec_v", s), saveqvectors=True, outputfile=out)
